@@ -27,6 +27,10 @@ def run_workload(d, modname):
     return json.loads(r.stdout.rsplit("VFOUT ", 1)[1]), None
 
 
+def module_file(d, modname):
+    return os.path.join(d, *modname.split(".")) + ".py"
+
+
 def write_tree(d, modname, source, helpers):
     os.makedirs(d, exist_ok=True)
     for rel, text in helpers.items():
@@ -34,7 +38,15 @@ def write_tree(d, modname, source, helpers):
         os.makedirs(os.path.dirname(p), exist_ok=True)
         with open(p, "w") as f:
             f.write(text)
-    with open(os.path.join(d, modname + ".py"), "w") as f:
+    mf = module_file(d, modname)
+    os.makedirs(os.path.dirname(mf), exist_ok=True)
+    if "." in modname:
+        pkgdir = os.path.dirname(mf)
+        open(os.path.join(pkgdir, "__init__.py"), "w").write("")
+        # re-export shims inside the package: the classes still belong to the top-level helper modules
+        open(os.path.join(pkgdir, "shapes.py"), "w").write("from shapes import Circle, Square, unit  # noqa: F401\n")
+        open(os.path.join(pkgdir, "points.py"), "w").write("from geo.util import Point  # noqa: F401\n")
+    with open(mf, "w") as f:
         f.write(source)
 
 
@@ -44,7 +56,7 @@ def trace_module(d, modname):
 
     sys.path.insert(0, d)
     importlib.invalidate_caches()
-    for n in ("shapes", "geo", "geo.util", "colors", modname):
+    for n in ("shapes", "fastshapes", "geo", "geo.util", "colors", modname, modname.split(".")[0], modname.split(".")[0] + ".shapes", modname.split(".")[0] + ".points"):
         sys.modules.pop(n, None)
     try:
         mod = importlib.import_module(modname)
@@ -73,6 +85,8 @@ def stub_for(traces, k, overwrite, modname):
     from monkeytype.typing import DEFAULT_REWRITER
 
     traces = [t for t in traces if t.func.__module__ == modname and "<locals>" not in t.func.__qualname__]
+    if not traces:
+        raise RuntimeError("no traces for " + modname)
     stubs = build_module_stubs_from_traces(traces, k, existing_annotation_strategy=S.IGNORE if overwrite else S.REPLICATE, rewriter=DEFAULT_REWRITER)
     return stubs[modname].render()
 
@@ -115,7 +129,12 @@ def placement(orig, result, info):
                 bad.append(("runtime-import-confined:TypedDict", "TypedDict is imported under TYPE_CHECKING while generated classes subclass it at module level"))
             continue
         if "if TYPE_CHECKING" not in b and "if typing.TYPE_CHECKING" not in b:
-            bad.append(("new-import-not-confined", f"newly introduced import {m}.{n} is outside `if TYPE_CHECKING:` (block {b or 'module'})"))
+            if m is None:
+                # the stub only ever has from-imports: a plain `import x` was chosen by libcst (the name the stub imports is
+                # bound to something else in the source, e.g. by an alternative import in a try/except)
+                bad.append(("plain-module-import-added-by-libcst-not-confined", f"`import {n}` added for annotations is outside `if TYPE_CHECKING:` (block {b or 'module'})"))
+            else:
+                bad.append(("new-import-not-confined", f"newly introduced import {m}.{n} is outside `if TYPE_CHECKING:` (block {b or 'module'})"))
     # original imports stay where they were: same block, same relative order
     o_seq = [(m, n, a, lv, b) for m, n, a, lv, b, l in oi]
     n_seq = [(m, n, a, lv, b) for m, n, a, lv, b, l in ni]
@@ -244,8 +263,13 @@ def work(p):
     for spec in p["sources"]:
         rng = random.Random(spec["seed"])
         modname = spec["name"]
+        if spec.get("style") == "relative-import-in-package":
+            modname = spec["name"] + "_pkg.mod"
         style = next((s for s in gs.IMPORT_STYLES if s["name"] == spec.get("style")), None)
-        src = gs.build(rng, modname, {"style": style, "force": spec.get("force")})
+        if spec.get("literal_source"):
+            src = {"source": spec["literal_source"], "helpers": dict(gs.HELPERS), "features": ["literal"], "style": "literal"}
+        else:
+            src = gs.build(rng, modname, {"style": style, "force": spec.get("force")})
         d = os.path.join(d0, modname)
         write_tree(d, modname, src["source"], src["helpers"])
         base_out, err = run_workload(d, modname)
@@ -305,8 +329,10 @@ def work(p):
             res.shape(json.dumps([src["style"], sorted(src["features"])[:6], overwrite, k, confine]))
             c16_keys = ("future-import-not-first", "new-import-not-confined", "runtime-import-confined", "source-import-", "result-does-not-run",
                         "result-behaves-differently", "result-does-not-parse", "apply-fails", "nested-class-annotation-imported-as-module",
-                        "annotation-relies-on-function-local-import")
-            own = {"C15": lambda key: True, "C16": lambda key: key.startswith(c16_keys)}[prop]
+                        "annotation-relies-on-function-local-import", "plain-module-import-added-by-libcst-not-confined")
+            placement_only = ("future-import-not-first", "new-import-not-confined", "runtime-import-confined", "source-import-removed-or-moved",
+                              "plain-module-import-added-by-libcst-not-confined")
+            own = {"C15": lambda key: not key.startswith(placement_only), "C16": lambda key: key.startswith(c16_keys)}[prop]
             keys = {}
             for key, text in bad:
                 keys.setdefault(key, []).append(text)
@@ -321,7 +347,7 @@ def work(p):
         # CLI apply (file rewritten in place) for the plain configuration
         if spec.get("cli"):
             judge_cli(res, d, modname, src, tmod, traces, spec)
-        for n in ("shapes", "geo", "geo.util", "colors", modname):
+        for n in ("shapes", "fastshapes", "geo", "geo.util", "colors", modname):
             sys.modules.pop(n, None)
         shutil.rmtree(d, ignore_errors=True)
     shutil.rmtree(d0, ignore_errors=True)
@@ -342,7 +368,7 @@ def judge_cli(res, d, modname, src, tmod, traces, spec):
     if r1.returncode != 0 or r2.returncode != 0:
         res.violation("cli-apply-fails", f"run rc={r1.returncode} apply rc={r2.returncode}: {(r2.stderr or r1.stderr)[-300:]}", wit)
         return
-    after = open(os.path.join(d, modname + ".py")).read()
+    after = open(module_file(d, modname)).read()
     if after.rstrip("\n") != r2.stdout.rstrip("\n"):
         res.violation("cli-apply-file-differs-from-stdout", "the rewritten file and the printed source differ", wit)
     diffs, info = AE.erased_diff(src["source"], after, allow_future=confine)
@@ -361,17 +387,26 @@ def judge_cli(res, d, modname, src, tmod, traces, spec):
         keys.setdefault("cli-apply-added-no-annotation", []).append("no annotation at all in the rewritten file")
     for key, texts in keys.items():
         res.violation(key, f"{modname} (cli apply, {src['style']}): {texts[0][:300]}", dict(wit, result=after[:2000]))
-    open(os.path.join(d, modname + ".py"), "w").write(src["source"])
+    open(module_file(d, modname), "w").write(src["source"])
     # `apply --ignore-existing-annotations`: every traced position receives the traced type whatever the source says
     loose = [pos for pos, text in oa.items() if text == "object"]
-    if loose and not confine:
+    if (loose or spec.get("cli_ignore")) and not confine:
         r3 = core.run_py(["-m", "monkeytype", "apply", modname, "--ignore-existing-annotations"], env=env, cwd=d, timeout=180)
         res.count("cli_applies_ignore")
         if r3.returncode != 0:
             res.violation("cli-apply-fails", f"apply --ignore-existing-annotations rc={r3.returncode}: {r3.stderr[-300:]}", wit)
         else:
-            na3 = AE.annotations_of(open(os.path.join(d, modname + ".py")).read())
+            text3 = open(module_file(d, modname)).read()
+            if text3.rstrip("\n") != r3.stdout.rstrip("\n"):
+                res.violation("cli-apply-file-differs-from-stdout", "apply --ignore-existing-annotations: the rewritten file and the printed source differ", wit)
+            try:
+                na3 = AE.annotations_of(text3)
+            except SyntaxError as e:
+                res.violation("cli-apply-result-does-not-parse", f"apply --ignore-existing-annotations left a file that does not parse: {e}", wit)
+                na3 = {}
+            if len(text3) < len(src["source"]):
+                res.count("cli_results_shorter_than_source")
             kept = [pos for pos in loose if na3.get(pos) == "object"]
             if kept:
                 res.violation("overwrite-requested-but-existing-annotation-kept[cli]", f"{modname}: apply --ignore-existing-annotations left {kept[0][0]}({kept[0][1]}): object", wit)
-        open(os.path.join(d, modname + ".py"), "w").write(src["source"])
+        open(module_file(d, modname), "w").write(src["source"])
